@@ -16,7 +16,7 @@ if [ $APPLY = ok ]; then
   cargo build --offline >/dev/null 2>&1; BUILD=$?
   bash $M/demo.sh $W > $OUT/.demo.log 2>&1; MUT=$?
   tail -5 $OUT/.demo.log > $OUT/demo_with_patch.tail.txt
-  BASE=$(/tmp/tools/run_baseline.sh $W 2>&1 | grep -E "^passed|MISSING" | tr '\n' ';')
+  BASE=$(/verif/tools/run_baseline.sh $W 2>&1 | grep -E "^passed|MISSING" | tr '\n' ';')
 else BUILD=-1; MUT=-1; BASE="n/a"; fi
 rm -f $OUT/.demo.log
 git reset -q --hard; git clean -fdq -e target -e target-rel
